@@ -610,7 +610,11 @@ class DecimalRange(Range):
                                     # Such numbers cannot be shown in error messages.
                                     raise errors.InterfaceError(
                                         "exponent of number must be between -%d and %d but is: %s"
-                                        % (decimal.getcontext().Emax, decimal.getcontext().Emax, _compat.text_repr(next_value)),
+                                        % (
+                                            decimal.getcontext().Emax,
+                                            decimal.getcontext().Emax,
+                                            _compat.text_repr(next_value),
+                                        ),
                                         location,
                                     )
                                 digits_after_dot = max(0, -exponent)
